@@ -426,7 +426,7 @@ func (c *c04) stringsWorkload(thorough bool) {
 	for _, d := range denoms {
 		tc.L1.L1.Fund(who.Addr, sdk.NewCoin(d, math.NewInt(1_000_000_000)))
 	}
-	for round := 0; round < pick(thorough, 2, 40); round++ {
+	for round := 0; round < pick(thorough, 2, 100); round++ {
 		// an empty deposit of a denom L2 has never seen, to a recipient L2 cannot use: L1 accepts it, so L2 must be able
 		// to process it (or every later deposit waits behind it for ever)
 		if r := tc.L1Deposit(who, l2BadRecipients[round%len(l2BadRecipients)], fmt.Sprintf("unever%d", round), math.ZeroInt(), nil); r.Class == sim.OK {
